@@ -1,17 +1,1 @@
-use dashu_base::ExtendedGcd;
-use dashu_int::{IBig, UBig};
-use dvh::conv::*;
-fn main() {
-    // case 1: a = 2^263 (5 limbs, low zero), b = multiple?
-    let args: Vec<String> = std::env::args().collect();
-    let a = UBig::from_str_radix(&args[1], 16).unwrap();
-    let b = UBig::from_str_radix(&args[2], 16).unwrap();
-    let r = dvh::mon::catch(|| (&a).gcd_ext(&b));
-    match r {
-        Ok((g, s, t)) => {
-            let lhs = IBig::from(a.clone()) * &s + IBig::from(b.clone()) * &t;
-            println!("g={} ok={}", show_u(&g), lhs == IBig::from(g.clone()));
-        }
-        Err(e) => println!("panic {}", e),
-    }
-}
+fn main() { println!("{:?}", dvh::ieee::selftest()); }
